@@ -433,7 +433,7 @@ var c20HSpec = &HSpec{ID: "C20",
 		var out []*hist.Scenario
 		for _, f := range coreFamilies() {
 			for i, op := range f.ops {
-				if tier == "quick" && i%2 == 1 {
+				if tier == "quick" && i%3 != 0 {
 					continue
 				}
 				for _, ti := range [][2]int64{{1, 1}, {2, 2}} {
